@@ -1,6 +1,7 @@
 import Driver.VMapDrv
 import Driver.TextTableDrv
 import Driver.KeywordsDrv
+import Driver.SpecifiersDrv
 /-! `psymodel <component>`: reads one case per line on stdin, answers one line per case. -/
 
 partial def loop (h : IO.FS.Stream) (out : IO.FS.Stream) (f : String → String) : IO Unit := do
@@ -16,4 +17,5 @@ def main (args : List String) : IO UInt32 := do
   | ["vmap"] => loop stdin stdout Driver.VMapDrv.handle; return 0
   | ["textable"] => loop stdin stdout Driver.TextTableDrv.handle; return 0
   | ["keywords"] => loop stdin stdout Driver.KeywordsDrv.handle; return 0
+  | ["specifiers"] => loop stdin stdout Driver.SpecifiersDrv.handle; return 0
   | _ => IO.eprintln "usage: psymodel <component>"; return 2
